@@ -259,6 +259,36 @@ theorem verdict_state_hash (H : Bytes → Bytes) (key value : Bytes) (path : Lis
     provePatricia H key value path stateHash roots = some .stateHashDoesNotMatchRoots :=
   provePatricia_stateHash H key value path stateHash roots h
 
+/-- **state_hash_counts_multiplicity**: the state hash is checked against the subcache roots as a *list* — in order and
+    with multiplicity. A state hash derived from one list of roots passes the first check for another list of roots (all
+    of the digest length) only if the two lists are equal, or an explicit collision of `H` is in hand. In particular
+    de-duplicating, re-ordering or truncating the roots is `STATE_HASH_DOES_NOT_MATCH_ROOTS`. -/
+theorem state_hash_counts_multiplicity (H : Bytes → Bytes) (n : Nat) (hn : 0 < n) (derivedFrom presented : List Bytes)
+    (hd : ∀ r ∈ derivedFrom, r.length = n) (hp : ∀ r ∈ presented, r.length = n)
+    (key value : Bytes) (path : List Node)
+    (h : provePatricia H key value path (H derivedFrom.flatten) presented ≠ some .stateHashDoesNotMatchRoots) :
+    derivedFrom = presented ∨ Collision H := by
+  by_cases hx : derivedFrom.flatten = presented.flatten
+  · exact Or.inl (flatten_inj_of_length n hn _ _ hd hp hx)
+  · by_cases hh : H derivedFrom.flatten = H presented.flatten
+    · exact Or.inr ⟨_, _, hx, hh⟩
+    · exact absurd (verdict_state_hash H key value path _ presented hh) h
+
+/-- the instance behind it: a root that occurs twice counts twice. The state hash over `[a]` does not match the roots
+    `[a, a]` (two equal subcache roots, e.g. two empty subcaches), and vice versa, unless `H` collides. -/
+theorem state_hash_repeated_root (H : Bytes → Bytes) (a : Bytes) (ha : 0 < a.length) (key value : Bytes) (path : List Node) :
+    (provePatricia H key value path (H [a].flatten) [a, a] = some .stateHashDoesNotMatchRoots ∧
+     provePatricia H key value path (H [a, a].flatten) [a] = some .stateHashDoesNotMatchRoots) ∨ Collision H := by
+  by_cases h1 : provePatricia H key value path (H [a].flatten) [a, a] = some .stateHashDoesNotMatchRoots
+  · by_cases h2 : provePatricia H key value path (H [a, a].flatten) [a] = some .stateHashDoesNotMatchRoots
+    · exact Or.inl ⟨h1, h2⟩
+    · rcases state_hash_counts_multiplicity H a.length ha [a, a] [a] (by simp) (by simp) key value path h2 with h | h
+      · simp at h
+      · exact Or.inr h
+  · rcases state_hash_counts_multiplicity H a.length ha [a] [a, a] (by simp) (by simp) key value path h1 with h | h
+    · simp at h
+    · exact Or.inr h
+
 /-- the first node does not hash to a subcache root ⇒ `UNANCHORED_PATH_TREE` -/
 theorem verdict_unanchored (H : Bytes → Bytes) (key value : Bytes) (first : Node) (rest : List Node)
     (roots : List Bytes) (h0 : Bytes) (hh : nodeHash H first = some h0) (hr : h0 ∉ roots) :
